@@ -82,7 +82,7 @@ CHECKS.update({
    tech=TECH + 'trigonometric normal form (half-angle base pairs, c^2+s^2=1); run-time contracts on the Euler-angle grid as bounded stand-in'),
  'C18': dict(level='other', ref='DESIGN.md §7 C18',
    text='Proved (identities in the SYMBOLIC parameter over its documented range): Werner / Isotropic equal their textbook formulas, unit trace, Hermitian (d=2..4); Horodecki 2x4 / 3x3 unit trace and symmetric; W-type normalised with amplitudes proportional to the coefficients; fixed kets (W, GHZ, Bell, maximally entangled / coherent) exactly normalised; '
-        'return_dm returns exactly the projector of the ket; maximally_mixed_state has unit trace. Bounded (grids with end points): PSD / PPT / ranks, all load_upb kinds (orthonormal product vectors, PPT complement of rank D-|UPB|), POVMs and Chebyshev bases, closed-form REE/EOF/GME.',
+        'return_dm returns exactly the projector of the ket; maximally_mixed_state has unit trace; spectral certificates for Werner and Isotropic (d=2,3 (4)): N(alpha) rho(alpha) and its partial transpose are combinations of fixed complementary projectors whose coefficients are >= 0 on the whole documented range (PSD), >= 0 exactly on the separable range (PPT) and < 0 beyond it (NPT) - z3 linear arithmetic in alpha. Bounded (grids with end points): PSD / PPT / ranks of the other families, all load_upb kinds (orthonormal product vectors, PPT complement of rank D-|UPB|), POVMs and Chebyshev bases, closed-form REE/EOF/GME.',
    note=ALG_NOTE + ' Positivity/PPT/rank need eigenvalues: bounded.' + BOUNDED_NOTE,
    tech=TECH + 'range-typed parameter symbols for the documented preconditions; run-time contracts on parameter grids as bounded stand-in'),
  'C19': dict(level='exploration', ref='DESIGN.md §7 C19',
